@@ -6,6 +6,7 @@
 package main
 
 import (
+	"bufio"
 	"bytes"
 	"context"
 	"crypto/sha1"
@@ -19,6 +20,7 @@ import (
 	"os/exec"
 	"runtime"
 	"strings"
+	"syscall"
 	"time"
 
 	"github.com/9elements/converged-security-suite/v2/pkg/bootflow/actions/tpmactions"
@@ -477,7 +479,109 @@ const (
 	pkEmptySw = 'Z' // like E, stored offset first
 	pkAtEnd   = 'X' // ends exactly at the image end
 	pkPastEnd = 'P' // reaches past the image end
+	pkWide    = 'W' // a record of two 64-bit numbers: an address (mostly of the window) next to a boundary value of the 64-bit range, either field first
 )
+
+// ---- records whose two fields are arbitrary 64-bit numbers.  The event data is the recorded log's own, so a field
+// may be any number below 2^64.  The generator takes them from the boundaries of the 64-bit range as seen from the
+// format (a length is at most the image size, an offset lies in the window [4 GiB - image size, 4 GiB) the image is
+// mapped to): values at / next to those bounds, powers of two, and the numbers with which a sum of the two fields, or
+// of the length and the offset inside the image, wraps around 2^64 to a small value.
+type wideField struct {
+	name string
+	v    uint64
+}
+
+// addresses inside the window ...
+func wideOffsetsInside(rng *rand.Rand, isz uint64) []wideField {
+	base := physBase - isz
+	return []wideField{
+		{"the first address of the window", base},
+		{"an address near the start of the window", base + 1 + uint64(rng.Intn(4096))},
+		{"an address inside the window", base + 4097 + uint64(rng.Intn(int(isz-8192)))},
+		{"the last address of the window", physBase - 1},
+	}
+}
+
+// ... and numbers that are no address of the window
+func wideOffsetsOutside(rng *rand.Rand, isz uint64) []wideField {
+	base := physBase - isz
+	return []wideField{
+		{"one below the window", base - 1},
+		{"4 GiB (one above the window)", physBase},
+		{"0", 0},
+		{"an offset inside the image file (not a physical address)", 1 + uint64(rng.Intn(int(isz-1)))},
+		{"2^63 + an address of the window", 1<<63 + base + uint64(rng.Intn(int(isz)))},
+		{"2^64 - 1", ^uint64(0)},
+	}
+}
+
+// the lengths tried next to the address off (of the window)
+func wideLengths(rng *rand.Rand, isz, off uint64) []wideField {
+	base := physBase - isz
+	io := off - base // offset inside the image
+	small := 1 + uint64(rng.Intn(256))
+	return []wideField{
+		{"0", 0},
+		{"1", 1},
+		{"up to the image end exactly", isz - io},
+		{"one byte past the image end", isz - io + 1},
+		{"the image size - 1", isz - 1},
+		{"the image size", isz},
+		{"the image size + 1", isz + 1},
+		{"twice the image size", 2 * isz},
+		{"the first address of the window", base},
+		{"4 GiB - 1", physBase - 1},
+		{"4 GiB", physBase},
+		{"4 GiB - the address (address + length = 4 GiB)", physBase - off},
+		{"2^63 - 1", 1<<63 - 1},
+		{"2^63", 1 << 63},
+		{"2^64 - the image size", -isz},
+		{"2^64 - the offset inside the image (offset + length wraps to 0)", -io},
+		{"2^64 - the offset inside the image + 1 (offset + length wraps to 1)", -io + 1},
+		{"offset inside the image + length wraps to a small number", -io + small},
+		{"offset inside the image + length wraps to the image size", -io + isz},
+		{"offset inside the image + length wraps to the image size + 1", -io + isz + 1},
+		{"2^64 - the address (address + length wraps to 0)", -off},
+		{"address + length wraps to a small number", -off + small},
+		{"address + length wraps to the image size", -off + isz},
+		{"address + length wraps to the address itself less one", ^uint64(0)},
+		{"a random 64-bit number", rng.Uint64()},
+		{"a random number of 33..63 bits", (uint64(1)<<uint(32+rng.Intn(31)) | rng.Uint64()>>32)},
+	}
+}
+
+// the 16 bytes of a record: (length, offset) as the format has it, or the offset first
+func wideRecord(off, length uint64, offsetFirst bool) []byte {
+	if offsetFirst {
+		return pair16(off, length)
+	}
+	return pair16(length, off)
+}
+
+// one record with two 64-bit numbers, drawn: mostly an address of the window next to one of the lengths above
+func randWideRecord(rng *rand.Rand, isz uint64) ([]byte, string) {
+	var o wideField
+	if rng.Intn(6) == 0 {
+		os := wideOffsetsOutside(rng, isz)
+		o = os[rng.Intn(len(os))]
+	} else {
+		os := wideOffsetsInside(rng, isz)
+		o = os[rng.Intn(len(os))]
+	}
+	ls := wideLengths(rng, isz, o.v)
+	l := ls[rng.Intn(len(ls))]
+	first := rng.Intn(2) == 0
+	return wideRecord(o.v, l.v, first), wideDescr(o, l, first)
+}
+
+func wideDescr(o, l wideField, offsetFirst bool) string {
+	order := "(length, offset)"
+	if offsetFirst {
+		order = "(offset, length)"
+	}
+	return fmt.Sprintf("record stored as %s with offset %#x [%s] and length %#x [%s]", order, o.v, o.name, l.v, l.name)
+}
 
 func onePair(rng *rand.Rand, isz uint64, kind byte) []byte {
 	base := physBase - isz
@@ -493,6 +597,9 @@ func onePair(rng *rand.Rand, isz uint64, kind byte) []byte {
 	case pkPastEnd:
 		l := uint64(2 + rng.Intn(256))
 		return pair16(l, physBase-1-uint64(rng.Intn(int(l-1))))
+	case pkWide:
+		r, _ := randWideRecord(rng, isz)
+		return r
 	}
 	l := uint64(1 + rng.Intn(64))
 	p := pair16(l, base+uint64(rng.Intn(int(isz-l))))
@@ -519,7 +626,7 @@ func randKinds(rng *rand.Rand, max int) string {
 	n := rng.Intn(max + 1)
 	k := make([]byte, n)
 	for i := range k {
-		switch x := rng.Intn(20); {
+		switch x := rng.Intn(22); {
 		case x < 8:
 			k[i] = pkEmpty
 		case x < 15:
@@ -530,8 +637,10 @@ func randKinds(rng *rand.Rand, max int) string {
 			k[i] = pkEmptySw
 		case x < 19:
 			k[i] = pkAtEnd
-		default:
+		case x < 20:
 			k[i] = pkPastEnd
+		default:
+			k[i] = pkWide
 		}
 	}
 	return string(k)
@@ -586,7 +695,18 @@ func genEventData(rng *rand.Rand, isz uint64) ([]byte, string) {
 	descr := func(s string) []byte {
 		return append([]byte{byte(len(s))}, []byte(s)...)
 	}
-	switch rng.Intn(16) {
+	switch rng.Intn(18) {
+	case 16, 17: // two arbitrary 64-bit numbers, alone or behind a real pair / a description
+		r, what := randWideRecord(rng, isz)
+		switch rng.Intn(4) {
+		case 0:
+			return append(inRange(), r...), "one pair in range, then a " + what
+		case 1:
+			return append(r, inRange()...), "a " + what + ", then one pair in range"
+		case 2:
+			return append(descr("FV_BB"), r...), "description + a " + what
+		}
+		return r, "a " + what
 	case 0:
 		return nil, "nil"
 	case 1:
@@ -625,7 +745,7 @@ func genEventData(rng *rand.Rand, isz uint64) ([]byte, string) {
 		if rng.Intn(3) == 0 {
 			d = "FV_MAIN"
 		}
-		return pairListData(rng, isz, k, d), fmt.Sprintf("pair list %q (E empty, R real, S/Z stored offset first, X ends at the image end, P reaches past it; the last one is read first), description %q", k, d)
+		return pairListData(rng, isz, k, d), fmt.Sprintf("pair list %q (E empty, R real, S/Z stored offset first, X ends at the image end, P reaches past it, W two 64-bit numbers; the last one is read first), description %q", k, d)
 	case 14, 15:
 		k := randKinds(rng, 4)
 		return pairListData(rng, isz, k, ""), fmt.Sprintf("pair list %q", k)
@@ -1172,6 +1292,21 @@ func hasRangePastEnd(data []byte, isz uint64) bool {
 	return false
 }
 
+// Is there a 16-byte record in the data that the format does not admit as a (length, offset) pair although one of
+// its fields is an address of the mapped image: the other field is above the image size?  (Only to name the place in
+// the report of a panic: the reading of pairs has to stop there, whatever the two numbers add up to modulo 2^64.)
+func hasWideRecord(data []byte, isz uint64) (bool, string) {
+	inWin := func(x uint64) bool { return x >= physBase-isz && x < physBase }
+	for end := len(data); end >= 16; end -= 16 {
+		a := binary.LittleEndian.Uint64(data[end-16:])
+		b := binary.LittleEndian.Uint64(data[end-8:])
+		if (inWin(a) && b > isz && !inWin(b)) || (inWin(b) && a > isz && !inWin(a)) {
+			return true, fmt.Sprintf("%#x, %#x", a, b)
+		}
+	}
+	return false, ""
+}
+
 // Signature of the known finding C13-D20-rangesToChunks-index: the pairs are read one after the other (the last
 // one of the data first) and each one looks up the reference "number of chunks made so far" of the paired
 // measurement; a pair makes a chunk when it is not empty, or when the reference it looked up is a hard-coded
@@ -1203,7 +1338,7 @@ func doCase(c *gal.Ctx, kind string, g *genCtx, nilLog bool) {
 	// --- the input is recorded before the call: a panic in a goroutine of the digest search of the explainer cannot
 	// be recovered and kills the process (the repaired defect C13-unhash-concurrent-found-digests did that); the
 	// driver then reports this input.  The guess limit is the one drawn for the case, whatever the log.
-	c.Begin("ReproduceEventLog kills the process (panic in a goroutine of its own)", "pkg/bootflow/subsystems/trustchains/tpm/pcrbruteforcer/reproduce_event_log.go",
+	c.Begin("ReproduceEventLog kills the process (a panic in a goroutine of its own, or an allocation of gigabytes for the 64 KiB image)", "pkg/bootflow/subsystems/trustchains/tpm/pcrbruteforcer/reproduce_event_log.go",
 		map[string]interface{}{"kind": kind, "boot": b.name, "alg": fmt.Sprint(g.alg), "settings": g.st, "gomaxprocs": g.P, "edit_ops": g.ops, "recorded_log": describeEvents(g.evs)})
 	o := runRepro(b, log, g.alg, g.st, g.P)
 	nCase++
@@ -1344,7 +1479,8 @@ func doCase(c *gal.Ctx, kind string, g *genCtx, nilLog bool) {
 		// by their signature - the panic message AND the trigger on an entry that reaches the place (who is paired
 		// with whom: the disable bitmaps of the alignment; without them every pairing is considered) - only to name
 		// the site in the report: they are ordinary failures.
-		var d20, nilMeas, pastEnd bool
+		var d20, nilMeas, pastEnd, wide bool
+		wideRec := ""
 		d20Len := -1
 		judge := func(e *tpmeventlog.Event, sim int) {
 			// sim < 0: the entry is left unpaired (unexpected): analysed without a measurement
@@ -1369,6 +1505,9 @@ func doCase(c *gal.Ctx, kind string, g *genCtx, nilLog bool) {
 			}
 			if hasRangePastEnd(e.Data, b.isz) {
 				pastEnd = true
+			}
+			if w, rec := hasWideRecord(e.Data, b.isz); w {
+				wide, wideRec = true, rec
 			}
 			if mi >= 0 {
 				refs := b.proc.CurrentState.MeasuredData[mi].References
@@ -1410,6 +1549,8 @@ func doCase(c *gal.Ctx, kind string, g *genCtx, nilLog bool) {
 			c.OracleFail(idx, "ReproduceEventLog panics (TXT registers present, differing digest, simulated event without a measurement; repaired defect "+findNilM+" is back): "+o.Msg, "pkg/bootflow/subsystems/trustchains/tpm/pcrbruteforcer/reproduce_event_log.go:getACMPolicyStatusRefFromMeasurement (m == nil)", descr)
 		case pastEnd && strings.Contains(o.Msg, "artifact *biosimage.BIOSImage, range"):
 			c.OracleFail(idx, "ReproduceEventLog panics (a (length,offset) pair of the event data reaches past the image end; repaired defect "+findRange+" is back): "+o.Msg, "pkg/bootflow/subsystems/trustchains/tpm/pcrbruteforcer/analyze_unexpected_log_entry.go:rangesToChunks / tryMeasurement -> types.Reference.RawBytes", descr)
+		case wide:
+			c.OracleFail(idx, "ReproduceEventLog panics on a recorded entry whose event data holds a 16-byte record of two 64-bit numbers ("+wideRec+") that is no (length, offset) pair of the format - one is an address of the mapped image, the other exceeds the image size - and so names no range to read: "+o.Msg, "pkg/tpmeventlog/parse_event_data.go:parseEventDataPCR0PlatformFirmwareBlob2 / pkg/bootflow/subsystems/trustchains/tpm/pcrbruteforcer/analyze_unexpected_log_entry.go:rangesToChunks", descr)
 		default:
 			fail("ReproduceEventLog panics: " + o.Msg)
 		}
@@ -1830,7 +1971,78 @@ func searchCase(c *gal.Ctx, b *boot, alg tpm2.Algorithm, exp []*tpmeventlog.Even
 
 // ---------------------------------------------------------------- main
 
+// The analysis of a 64 KiB image has no use for gigabytes: the address space of the harness process is capped, so
+// that a length taken from the event data and handed to make() unchecked ends the process with Go's "fatal error:
+// runtime: out of memory" - which the driver reports together with the input recorded before the call - instead of
+// draining the machine until the kernel kills some process.  (The harness itself stays below 100 MiB resident.)
+func limitAddressSpace() {
+	const lim = 4 << 30
+	var r syscall.Rlimit
+	if syscall.Getrlimit(syscall.RLIMIT_AS, &r) == nil && r.Cur > lim {
+		r.Cur = lim
+		_ = syscall.Setrlimit(syscall.RLIMIT_AS, &r)
+	}
+}
+
+// The harness proper runs as a child of a thin supervisor (this binary again, with the variable set).  When the code
+// under test ends the process - a panic in a goroutine of its own, a Go "fatal error" such as an allocation the
+// process cannot get - the runtime prints the reason FIRST and then the stacks of all goroutines, which pushes the
+// reason out of the part of the output the driver keeps.  The supervisor passes everything through and repeats that
+// first line at the very end, so that the driver recognises the crash and reports the input recorded before the call.
+const supervisedEnv = "C13_SUPERVISED"
+
+func supervise() {
+	exe, err := os.Executable()
+	if err != nil {
+		return // no supervisor: run the harness in this process
+	}
+	cmd := exec.Command(exe, os.Args[1:]...)
+	cmd.Env = append(os.Environ(), supervisedEnv+"=1")
+	cmd.Stdout = os.Stdout
+	runtime.LockOSThread() // the death signal is bound to the thread that starts the child
+	cmd.SysProcAttr = &syscall.SysProcAttr{Pdeathsig: syscall.SIGKILL}
+	pr, err := cmd.StderrPipe()
+	if err != nil {
+		return
+	}
+	if err := cmd.Start(); err != nil {
+		return
+	}
+	reason := ""
+	rd := bufio.NewReaderSize(pr, 1<<16)
+	for {
+		line, err := rd.ReadString('\n')
+		if line != "" {
+			os.Stderr.WriteString(line)
+			if reason == "" && (strings.HasPrefix(line, "fatal error: ") || strings.HasPrefix(line, "panic: ")) {
+				reason = strings.TrimRight(line, "\n")
+			}
+		}
+		if err != nil {
+			break
+		}
+	}
+	err = cmd.Wait()
+	if err == nil {
+		os.Exit(0)
+	}
+	code := 1
+	if ee, ok := err.(*exec.ExitError); ok && ee.ExitCode() > 0 {
+		code = ee.ExitCode()
+	}
+	if reason != "" {
+		fmt.Fprintf(os.Stderr, "\nthe harness process died: %s\n", reason)
+	} else {
+		fmt.Fprintf(os.Stderr, "\nthe harness process ended abnormally: %v\n", err)
+	}
+	os.Exit(code)
+}
+
 func main() {
+	if os.Getenv(supervisedEnv) == "" && os.Getenv(unhashProbeEnv) == "" {
+		supervise()
+	}
+	limitAddressSpace()
 	boots := buildBoots()
 	if os.Getenv(unhashProbeEnv) != "" {
 		unhashWitness(boots[0])
@@ -2008,10 +2220,80 @@ func main() {
 		doCase(c, "event-data", g, false)
 	}
 
+	parserTypes := []tpmeventlog.EventType{evPostCode, evBlob2}
+	// ---- records of two arbitrary 64-bit numbers ("event data containing arbitrary (offset, length) pairs"): every
+	// address class of the window x every length class of the 64-bit range x both field orders, and the numbers that
+	// are no address of the window next to a few lengths; alone, behind a real pair (so that a chunk was made before
+	// it is read) or in front of one; on an inserted (unexpected) entry and on an entry that stays paired with its
+	// simulated event and measurement but has another digest
+	wideN := 0
+	wideCase := func(o, l wideField, offsetFirst bool) {
+		b := refBoots[c.Rng.Intn(len(refBoots))]
+		alg := algs[c.Rng.Intn(2)]
+		// the classes are relative to the image of the boot
+		g := newGen(c, b, alg)
+		rec := wideRecord(o.v, l.v, offsetFirst)
+		what := "a " + wideDescr(o, l, offsetFirst)
+		data := rec
+		switch wideN % 5 {
+		case 1:
+			data = append(onePair(c.Rng, b.isz, pkReal), rec...)
+			what = "a real pair, then (read first) " + what
+		case 3:
+			data = append(append([]byte{}, rec...), onePair(c.Rng, b.isz, pkReal)...)
+			what += ", then (read first) a real pair"
+		}
+		typ := parserTypes[wideN%2]
+		if wideN%2 == 0 { // inserted
+			pos := bankPos(g.evs, alg)
+			at := pos[c.Rng.Intn(len(pos))]
+			e := g.newEntry()
+			e.Data, e.Type = data, typ
+			g.insertAt(at, e)
+			g.ops = []string{fmt.Sprintf("insert entry of type %#x at %d with event data: %s", uint32(typ), at, what)}
+		} else { // paired, other digest
+			sims := b.simIdx(alg)
+			si := sims[c.Rng.Intn(len(sims))]
+			if _, pi, _ := b.pcr0(alg); b.regs && si == pi { // the event data of a PCR0_DATA entry is not looked at
+				si = sims[c.Rng.Intn(len(sims))]
+			}
+			e := g.evs[si]
+			e.Data = data
+			how := "same type"
+			if !hasParser(e.Type) {
+				e.Type = typ
+				g.st.DisabledEventsMaxDistance = 0
+				how = fmt.Sprintf("retyped to %#x, DisabledEventsMaxDistance 0", uint32(typ))
+			}
+			e.Digest.Digest[c.Rng.Intn(len(e.Digest.Digest))] ^= 1 << uint(c.Rng.Intn(8))
+			g.ops = []string{fmt.Sprintf("entry %d re-digested (%s), event data: %s", si, how, what)}
+		}
+		wideN++
+		doCase(c, "wide-record", g, false)
+	}
+	{
+		isz := refBoots[0].isz // one image for all boots
+		for _, first := range []bool{true, false} {
+			for _, o := range wideOffsetsInside(c.Rng, isz) {
+				for _, l := range wideLengths(c.Rng, isz, o.v) {
+					wideCase(o, l, first)
+				}
+			}
+			for _, o := range wideOffsetsOutside(c.Rng, isz) {
+				ls := wideLengths(c.Rng, isz, o.v)
+				for _, li := range []int{0, 1, 5, 7, 12, 23} {
+					if !c.Thorough() && li == 12 {
+						continue
+					}
+					wideCase(o, ls[li], first)
+				}
+			}
+		}
+	}
+
 	// ---- lists of (length, offset) pairs on an entry that is only re-digested, so that it stays paired with its
 	// simulated event and measurement (one, two, three references; image ranges and hard-coded values): every list
 	// of empty / real pairs up to three (thorough: four) pairs on every simulated entry, then longer random lists
-	parserTypes := []tpmeventlog.EventType{evPostCode, evBlob2}
 	pairCase := func(b *boot, alg tpm2.Algorithm, si int, kinds, descr string, kind string) {
 		g := newGen(c, b, alg)
 		e := g.evs[si] // recFromSim keeps the indexes of the simulated log
@@ -2024,7 +2306,7 @@ func main() {
 			what = fmt.Sprintf("retyped to %#x, DisabledEventsMaxDistance 0", uint32(e.Type))
 		}
 		e.Digest.Digest[c.Rng.Intn(len(e.Digest.Digest))] ^= 1 << uint(c.Rng.Intn(8))
-		g.ops = []string{fmt.Sprintf("entry %d re-digested (%s), event data = pair list %q after description %q (E empty, R real, S/Z stored offset first, X ends at the image end, P reaches past it; the last pair of the data is read first)", si, what, kinds, descr)}
+		g.ops = []string{fmt.Sprintf("entry %d re-digested (%s), event data = pair list %q after description %q (E empty, R real, S/Z stored offset first, X ends at the image end, P reaches past it, W two 64-bit numbers; the last pair of the data is read first)", si, what, kinds, descr)}
 		doCase(c, kind, g, false)
 	}
 	lists := allKinds(c.Scale(3, 4))
@@ -2096,7 +2378,7 @@ func main() {
 	}
 
 	// ---- random edit scripts of 1..4 operations
-	for k := 0; k < c.Scale(700, 6000); k++ {
+	for k := 0; k < c.Scale(640, 6000); k++ {
 		b := refBoots[c.Rng.Intn(len(refBoots))]
 		if c.Rng.Intn(40) == 0 {
 			b = badBoot
@@ -2183,8 +2465,9 @@ func main() {
 		return r
 	}()
 	c.Finish("simulated boots on testdata/firmware/fake_intel_firmware.fd (Intel test flow with startup locality + PCR0_DATA + 3 measurements; small register, no locality entry, POST_CODE measurements, PCR1 measurement, two measurements in one step; no TXT registers with a log-only entry; registers without PCR0_DATA; a flow alignLogAndMeasurements rejects; measurements of two and three references, image ranges and hard-coded values mixed, behind EV_POST_CODE / firmware-blob entries); " +
-		"recorded logs = both banks of the simulated log changed by 0..4 edit operations on the PCR0 entries of the chosen bank (insert new / copied entry, delete, swap, move, retype, re-digest with random / zero / image-piece digests, event data with zero, one, two, three (length,offset) pairs in range, swapped, ending at / reaching past the image end, invalid, Fv(guid) descriptions, lists of 0..6 pairs (empty, real, stored offset first, at / past the image end) in any order, entry leaves the bank, truncated digest, PCR0_DATA re-digested with ACM_POLICY_STATUS decremented inside / at / above the window, with 1-2 flipped register bits, or with 1-2 bits flipped behind the register / on both sides of its end); " +
+		"recorded logs = both banks of the simulated log changed by 0..4 edit operations on the PCR0 entries of the chosen bank (insert new / copied entry, delete, swap, move, retype, re-digest with random / zero / image-piece digests, event data with zero, one, two, three (length,offset) pairs in range, swapped, ending at / reaching past the image end, invalid, Fv(guid) descriptions, lists of 0..6 pairs (empty, real, stored offset first, at / past the image end, records of two 64-bit numbers) in any order, one record of two 64-bit numbers alone / next to a real pair / behind a description, entry leaves the bank, truncated digest, PCR0_DATA re-digested with ACM_POLICY_STATUS decremented inside / at / above the window, with 1-2 flipped register bits, or with 1-2 bits flipped behind the register / on both sides of its end); " +
 		"pair lists: every list of empty / real pairs up to three pairs (thorough: four) as the event data of every simulated entry, the entry only re-digested (retyped to a parsed type with DisabledEventsMaxDistance 0 where needed) so that it stays paired with its measurement of one, two or three references, plus random longer lists after descriptions; " +
+		"wide records (the two fields of a 16-byte record are arbitrary 64-bit numbers): every address class (first / near the start / inside / last address of the window the image is mapped to; and, with fewer lengths, one below the window, 4 GiB, 0, an offset inside the image file, 2^63 + an address, 2^64 - 1) x every length class (0, 1, up to / one past the image end, image size - 1 / +0 / +1 / x2, the window base, 4 GiB - 1, 4 GiB, 4 GiB - address, 2^63 - 1, 2^63, 2^64 - image size, the lengths with which offset-inside-the-image + length wraps around 2^64 to 0 / 1 / a small number / the image size / the image size + 1, the lengths with which address + length wraps to 0 / a small number / the image size, 2^64 - 1, random 64-bit and 33..63-bit numbers) x both field orders, alone, read after a real pair or before one, alternately on an inserted (unexpected) entry and on an entry that stays paired with its measurement but has another digest, both parsed event types; the harness proper runs under a 4 GiB address-space cap as a child of a supervisor that repeats the reason of a crash (panic in a goroutine of the code under test, Go fatal error such as an allocation of gigabytes) at the end of the output, so that the input recorded before the call is reported; " +
 		"sweeps: every decrement 0..max(limit,GOMAXPROCS)+2 for limits 0..16 and GOMAXPROCS 1..16, bit flips anywhere in PCR0_DATA (register bit 0 / 63 / one / two / three bits; the first bit, the next byte, the last bit, one or two bits behind the register; a register bit together with a bit behind it) under combinatorial strategy off / on with distance 0, 1, 2 and linear limits 0, 2, 8, 128; the oracle re-hashes PCR0_DATA with the returned register for every repaired entry and demands the repair (with that value) whenever the settings promise it (decrement inside the window, or strategy enabled and at most distance register bits differ); settings drawn per case (linear limit incl. negative, combinatorial strategy on in half of the cases with distance 0..2, DisabledEventsMaxDistance 0..4, MaxDigestRangeGuesses 1..300; 20000..1520000 on the digest-search logs, whose unexplained digests (copied EV_SEPARATOR entry, runs of 0x00 / 0xff bytes) are found at many places of the image by several workers at once - the input class of the repaired defect C13-unhash-concurrent-found-digests, whose witness also runs in a child process as a regression check); SHA1 and SHA256 (+ SHA384, unknown and null algorithm, nil and empty log); " +
 		"hook cases: eventAndMeasurementsDistance on balanced/unbalanced bitmaps and short digests, bruteForceAlignedEventLogs on the generated logs; non-trivial = at least one edit operation; distinct = distinct Gallina literal")
 }
